@@ -19,6 +19,7 @@ RULE = ('four Hypothesis sub-checks.  smooth: float32/float64 arrays of length 1
         'targets (non-integral factor, rank change) must raise ValueError.  Non-trivial: width >= 3 and N > width; even-length median; '
         'rebin with both an expanding and a shrinking axis.')
 RULE += '  Also: strided / reversed views for smooth, runs of +-inf for uniq, expansion factors 5, 6, 7, 10, 49, 98 and big-endian floats for rebin.'
+RULE += ' Round 5: two rebin results alive at once; median inputs compared after the call, read-only inputs.'
 ASSUMPTIONS = ['widths do not exceed the array length; running-median widths are odd',
                'integer arrays for rebin are signed and non-negative (unsigned input wraps around in the interpolation difference: rebin(uint8 [1,0], 4) gives [1,128,0,0]; noted in DESIGN.md, not asserted: IDL truncation and floor division coincide there; the docstring itself warns about integer compatibility)',
                'float comparison: 1e-12 relative (float64), 2e-6 relative (float32) to allow for a different summation order',
